@@ -8,11 +8,17 @@ says: for every pair of rows, every centre `m`, every upstream factor `go`, ever
 coincident rows (distance 0) — the map `ℓ ↦ go · forward(ℓ)` has derivative `backward(go, saved(ℓ))`.
 
 Linear-algebra part: `_NaturalToMuVarSqrt._backward` returns the gradient w.r.t. the expectation parameters
-(`natural_adjoint_identity`), and the data terms of `_NgdInterpTerms.backward`.
+(`natural_adjoint_identity`, `cholesky_backward_adjoint`, chained in `natural_backward_expectation_gradient`), the
+second output of `_TrilNaturalToMuVarSqrt.backward` is the tangent of `θ ↦ C` (`tril_backward_tangent`,
+`tril_backward_is_derivative`), and all three outputs of `_NgdInterpTerms.backward` — the KL terms included, through
+Jacobi's formula of `Bridge/NgdMatrix.lean` — are the derivatives of the objective the forward stands for
+(`ngd_backward_expec_hasDerivAt`, `ngd_backward_interp_hasDerivAt`, `ngd_backward_kl_hasDerivAt`).  Since wave 3 these
+statements are about the definitions REGENERATED from the Python source (`Gen/NaturalGrad.lean`, translator
+`g5_natgrad`), tied to the hand-written model by the `gen_*` theorems.
 
-`*_partial` items (see docs/C19.md): Cholesky-backward adjoint (core lemma only), CIQ terms (data terms
-only, KL term by correspondence), LogNormalCDF (chain-rule form only; rational approximations by
-correspondence).
+`*_partial` items (see docs/C19.md): `ngd_interp_terms_partial` (kept: exact second-order expansion of the two data
+terms for one data point; superseded by the full-strength theorems above), LogNormalCDF (chain-rule form only; the
+rational approximations by correspondence).
 -/
 import Mathlib.Analysis.SpecialFunctions.Log.Deriv
 import Mathlib.LinearAlgebra.Matrix.Trace
@@ -21,6 +27,11 @@ import GPVerif.Gen.Formulas
 import GPVerif.Model.Kernels
 import GPVerif.Model.NaturalGrad
 import GPVerif.Bridge.FastPath
+import GPVerif.Gen.NaturalGrad
+import GPVerif.Bridge.NatGradGen
+import GPVerif.Bridge.NgdKL
+import GPVerif.Bridge.TrilTangent
+import GPVerif.Bridge.GradKernels
 
 
 namespace C19
@@ -218,12 +229,12 @@ theorem cholesky_backward_adjoint {n : ℕ} (dout L Linv : DMat n n ℝ) (dL : M
 
 /-! ### CIQ natural-gradient terms -/
 
-/- Full statement (NOT proved): the triple returned by `_NgdInterpTerms.backward` is the gradient of
-   `gm·interp_mean + gv·interp_var + gk·KL` w.r.t. `(interp_term, expec_vec, expec_mat)`.  The KL term needs
-   `d log det`, which Mathlib does not provide; it and the `interp_term` gradient are decided by the
-   correspondence (autograd of the explicit dense map, finite differences).
-   Proved: for the two data terms the returned `(expec_vec_grad, expec_mat_grad)` is the exact first-order part
-   of the change — the remainder `−gv (kᵀδm)²` is second order — for all directions `(δm, δE)`. -/
+/- Wave-2 form, kept: for ONE data point and the two data terms the returned `(expec_vec_grad, expec_mat_grad)` is the
+   exact first-order part of the change — the remainder `−gv (kᵀδm)²` is second order — for all directions `(δm, δE)`.
+   The full statement (all data points, all three outputs, the KL term `½(−log det(E − mmᵀ) + tr E − n)` through
+   Jacobi's formula) is proved below about the regenerated code: `ngd_backward_expec_hasDerivAt`,
+   `ngd_backward_interp_hasDerivAt`, `ngd_backward_kl_hasDerivAt`; this theorem is the `d = 1`, `gk = 0` data part of
+   the first, with the explicit remainder. -/
 theorem ngd_interp_terms_partial {n : ℕ} (k m dm : DMat n 1 ℝ) (E dE : DMat n n ℝ) (gm gv : ℝ) :
     gm * NaturalGrad.interpMean k (m.add dm) + gv * NaturalGrad.interpVar k (m.add dm) (E.add dE)
       = gm * NaturalGrad.interpMean k m + gv * NaturalGrad.interpVar k m E
@@ -311,6 +322,402 @@ theorem lncdf_backward_small_branch_partial (Φ : ℝ → ℝ) (z e : ℝ) (he :
   field_simp
   rw [pow_two, h4]
 
+/-! ### wave 3: the regenerated matrix backward passes (`Gen/NaturalGrad.lean`) equal the hand-written model -/
+
+section gen
+variable {n d : ℕ} {α : Type} [Field α]
+
+/-- generated `_phi_for_cholesky_` (in-place `tril_` + scaling of the diagonal view) = `Φ` -/
+theorem gen_phi_eq_model (A : DMat n n α) : Gen.NaturalGrad.phiForCholesky A = NaturalGrad.phi A := by
+  simp only [Gen.NaturalGrad.phiForCholesky, NatGradGen.scaleDiag_tril_eq_phi]
+
+/-- generated `_cholesky_backward` = model `sym(L⁻ᵀ Φ(Lᵀ dout) L⁻¹)` -/
+theorem gen_cholesky_backward_eq_model (dout L Linv : DMat n n α) :
+    Gen.NaturalGrad.choleskyBackward dout L Linv = NaturalGrad.choleskyBackward dout L Linv := by
+  simp only [Gen.NaturalGrad.choleskyBackward, NatGradGen.scaleDiag_tril_eq_phi, NaturalGrad.choleskyBackward]
+
+/-- generated `_NaturalToMuVarSqrt._backward` = model `naturalBackward` after model `choleskyBackward` -/
+theorem gen_natural_backward_eq_model (gMu mu : DMat n 1 α) (gL L C : DMat n n α) :
+    Gen.NaturalGrad.naturalBackward gMu gL mu L C
+      = NaturalGrad.naturalBackward gMu (NaturalGrad.choleskyBackward gL L C) mu := by
+  simp only [Gen.NaturalGrad.naturalBackward, NatGradGen.scaleDiag_tril_eq_phi, NaturalGrad.choleskyBackward,
+    NaturalGrad.naturalBackward]
+
+/-- generated `_NaturalToMuVarSqrt.backward` (the autograd entry point): `_backward` with `C = triInv L` -/
+theorem gen_natural_function_backward_eq (triInv : DMat n n α → DMat n n α) (gMu mu : DMat n 1 α) (gL L : DMat n n α) :
+    Gen.NaturalGrad.naturalFunctionBackward triInv gMu gL mu L
+      = Gen.NaturalGrad.naturalBackward gMu gL mu L (triInv L) := rfl
+
+/-- generated `_TrilNaturalToMuVarSqrt.backward` = (first output of the natural backward, model `trilTangent`) -/
+theorem gen_tril_backward_eq_model (gMu mu : DMat n 1 α) (gL L C : DMat n n α) :
+    Gen.NaturalGrad.trilBackward gMu gL mu L C
+      = ((NaturalGrad.naturalBackward gMu (NaturalGrad.choleskyBackward gL L C) mu).1,
+         NaturalGrad.trilTangent (NaturalGrad.choleskyBackward gL L C) L C) := by
+  simp only [Gen.NaturalGrad.trilBackward, NatGradGen.scaleDiag_tril_eq_phi, NaturalGrad.choleskyBackward,
+    NaturalGrad.naturalBackward, NaturalGrad.trilTangent]
+
+/-- generated `_TrilNaturalToMuVarSqrt.forward`: returns `(L Lᵀ η, L)` with `L = triInv C` and saves `(mu, L, C)` —
+exactly the triple `backward` unpacks -/
+theorem gen_tril_forward_eq (triInv : DMat n n α → DMat n n α) (η : DMat n 1 α) (C : DMat n n α) :
+    Gen.NaturalGrad.trilForward triInv η C
+      = ((triInv C).mul ((triInv C).transpose.mul η), triInv C,
+         (triInv C).mul ((triInv C).transpose.mul η), triInv C, C) := rfl
+
+/-- generated `_NgdInterpTerms.forward`, under the contract of `linear_cg` (`cgSolve P rhs = S·rhs` for the precision
+`P = −2·natural_mat`; `S` symmetric): `interp_mean = Kᵀm`, `interp_var = diag(KᵀSK)` with `m = S·natural_vec`,
+`kl_div = 0` (not computed in the forward pass), and the six saved tensors `(K, SK, Kᵀm, natural_vec, m, P)` -/
+theorem gen_ngd_forward_eq_model (cgSolve : DMat n n α → DMat n (1 + d) α → DMat n (1 + d) α)
+    (K : DMat n d α) (nv : DMat n 1 α) (Θ S : DMat n n α)
+    (hcg : ∀ R, cgSolve (Θ.smul (-2)) R = S.mul R) (hS : S.toMatrixᵀ = S.toMatrix) :
+    Gen.NaturalGrad.ngdForward cgSolve K nv Θ
+      = (NaturalGrad.interpMeanM K (S.mul nv), NaturalGrad.interpVarM K S, 0,
+         K, S.mul K, NaturalGrad.interpMeanM K (S.mul nv), nv, S.mul nv, Θ.smul (-2)) := by
+  have hmean : ((S.mul K).transpose.mul nv) = NaturalGrad.interpMeanM K (S.mul nv) := by
+    apply DMat.toMatrix_injective
+    simp only [NaturalGrad.interpMeanM, DMat.toMatrix_mul, DMat.toMatrix_transpose, Matrix.transpose_mul, hS,
+      Matrix.mul_assoc]
+  have hvar : (((NaturalGrad.ones : DMat 1 n α).mul ((S.mul K).hadamard K)).transpose) = NaturalGrad.interpVarM K S := by
+    apply DMat.toMatrix_injective
+    ext j k
+    simp only [NaturalGrad.interpVarM, DMat.toMatrix_mul, DMat.toMatrix_transpose, DMat.toMatrix_hadamard,
+      DMat.toMatrix_ofMatrix, NatGradGen.toMatrix_ones, Matrix.transpose_apply, Matrix.mul_apply, Matrix.of_apply,
+      Matrix.hadamard_apply, one_mul]
+    apply Finset.sum_congr rfl
+    intro i _
+    rw [mul_comm]
+  simp only [Gen.NaturalGrad.ngdForward, hcg, NatGradGen.cols_zero_mul_hcat, NatGradGen.cols_one_mul_hcat, hmean, hvar]
+
+/-- generated `_NgdInterpTerms.backward` on the saved tensors `(K, SK, Kᵀm, natural_vec, m, prec)` = the three model
+gradients (data terms and KL terms) -/
+theorem gen_ngd_backward_eq_model (S prec : DMat n n α) (K : DMat n d α) (m nv : DMat n 1 α) (gm gv : DMat d 1 α) (gk : α) :
+    Gen.NaturalGrad.ngdBackward gm gv gk K (S.mul K) (NaturalGrad.interpMeanM K m) nv m prec
+      = (NaturalGrad.ngdInterpTermGradM S K m gm.transpose gv.transpose,
+         NaturalGrad.ngdExpecVecGradM K m nv gm.transpose gv.transpose gk,
+         NaturalGrad.ngdExpecMatGradM K prec gv.transpose gk) := by
+  refine Prod.ext ?_ (Prod.ext ?_ ?_)
+  · apply DMat.toMatrix_injective
+    simp only [Gen.NaturalGrad.ngdBackward, NaturalGrad.ngdInterpTermGradM, DMat.toMatrix_add, DMat.toMatrix_smul]
+    rw [NatGradGen.bcast_outer, NatGradGen.bcast_row_hadamard]
+    simp only [NaturalGrad.rowDiag, DMat.toMatrix_mul, DMat.toMatrix_diagonal]
+  · apply DMat.toMatrix_injective
+    simp only [Gen.NaturalGrad.ngdBackward, NaturalGrad.ngdExpecVecGradM, DMat.toMatrix_add, DMat.toMatrix_smul]
+    rw [DMat.toMatrix_mul, DMat.toMatrix_mul, NatGradGen.bcast_row_hadamard, NatGradGen.bcast_row_hadamard]
+    simp only [NatGradGen.toMatrix_ones, NatGradGen.mul_diagonal_mul_ones]
+    simp only [NaturalGrad.rowDiag, NaturalGrad.interpMeanM, DMat.toMatrix_mul, DMat.toMatrix_diagonal,
+      DMat.toMatrix_transpose, DMat.toMatrix_hadamard, DMat.toMatrix_add, DMat.toMatrix_smul]
+    rw [NatGradGen.diagonal_mul_eq_of]
+    ext i k
+    have hk : k = 0 := Subsingleton.elim _ _
+    subst hk
+    simp only [Matrix.add_apply, Matrix.smul_apply, Matrix.mul_apply, Matrix.of_apply, Matrix.hadamard_apply,
+      Matrix.transpose_apply, smul_eq_mul, Finset.mul_sum, mul_add]
+    congr 1
+    rw [← Finset.sum_add_distrib]
+    apply Finset.sum_congr rfl
+    intro j _
+    congr 1
+    apply Finset.sum_congr rfl
+    intro l _
+    ring
+  · apply DMat.toMatrix_injective
+    simp only [Gen.NaturalGrad.ngdBackward, NaturalGrad.ngdExpecMatGradM, DMat.toMatrix_add, DMat.toMatrix_smul]
+    rw [DMat.toMatrix_mul, NatGradGen.bcast_row_hadamard]
+    simp only [NaturalGrad.rowDiag, DMat.toMatrix_mul, DMat.toMatrix_diagonal, DMat.toMatrix_transpose,
+      DMat.toMatrix_sub, DMat.toMatrix_one]
+
+end gen
+/-! ### wave 3: `_NgdInterpTerms.backward` — all three outputs, KL term included (full strength) -/
+
+section ngd
+variable {n d : ℕ}
+
+/-- the objective the three upstream gradients `(gm, gv, gk)` define, as a function of `interp_term = K` and the
+expectation parameters `(m, E)` (`S = E − m mᵀ`): `Σ_j gm_j·(Kᵀm)_j + Σ_j gv_j·(KᵀSK)_jj + gk·½(−log det S + tr E − n)`
+— the three quantities `_NgdInterpTerms.forward` stands for (`gen_ngd_forward_eq_model`, `ngd_objective_eq_forward`;
+the KL value itself is "not bothered with" in the forward pass, its formula is the comment there). -/
+noncomputable def ngdObjective (gm gv : DMat d 1 ℝ) (gk : ℝ) (K : Matrix (Fin n) (Fin d) ℝ)
+    (m : Matrix (Fin n) (Fin 1) ℝ) (E : Matrix (Fin n) (Fin n) ℝ) : ℝ :=
+  NgdKL.dataObj gm.toMatrixᵀ (Matrix.diagonal fun j => gv.toMatrix j 0) K m E + gk * NgdKL.kl m E
+
+/-- the data part of `ngdObjective` is the pairing of `(gm, gv)` with the forward's `(interp_mean, interp_var)` -/
+theorem ngd_objective_eq_forward (gm gv : DMat d 1 ℝ) (gk : ℝ) (K : DMat n d ℝ) (m : DMat n 1 ℝ) (S : DMat n n ℝ) :
+    ngdObjective gm gv gk K.toMatrix m.toMatrix (S.toMatrix + m.toMatrix * m.toMatrixᵀ)
+      = (gm.toMatrixᵀ * (NaturalGrad.interpMeanM K m).toMatrix).trace
+        + (gv.toMatrixᵀ * (NaturalGrad.interpVarM K S).toMatrix).trace
+        + gk * NgdKL.kl m.toMatrix (S.toMatrix + m.toMatrix * m.toMatrixᵀ) := by
+  unfold ngdObjective NgdKL.dataObj
+  rw [add_sub_cancel_right]
+  congr 1
+  congr 1
+  · simp [NaturalGrad.interpMeanM]
+  · rw [NatGradGen.diagonal_mul_eq_of]
+    simp only [NaturalGrad.interpVarM, DMat.toMatrix_ofMatrix, DMat.toMatrix_mul, DMat.toMatrix_transpose,
+      Matrix.trace, Matrix.diag_apply, Matrix.of_apply, Finset.univ_unique, Finset.sum_singleton,
+      Fin.default_eq_zero]
+    rw [Matrix.mul_apply]
+    simp only [Matrix.transpose_apply, Matrix.of_apply]
+
+/-- **`_NgdInterpTerms.backward`, outputs 2 and 3 (full strength, KL term included).**  Saved tensors as the forward
+leaves them (`gen_ngd_forward_eq_model`): `(K, S K, Kᵀm, natural_vec, m, prec)` with `S` symmetric, `det S > 0`,
+`prec·S = 1`, `natural_vec = prec·m`.  Along EVERY line `(m + t·δm, E + t·δE)` of expectation parameters through
+`(m, E = S + m mᵀ)` the objective has derivative `⟨expec_vec_grad, δm⟩ + ⟨expec_mat_grad, δE⟩` for the pair the
+GENERATED backward returns. -/
+theorem ngd_backward_expec_hasDerivAt (S prec : DMat n n ℝ) (K : DMat n d ℝ) (m nv : DMat n 1 ℝ) (gm gv : DMat d 1 ℝ)
+    (gk : ℝ) (dm : Matrix (Fin n) (Fin 1) ℝ) (dE : Matrix (Fin n) (Fin n) ℝ)
+    (hS : S.toMatrixᵀ = S.toMatrix) (hpos : 0 < S.toMatrix.det) (hP : prec.toMatrix * S.toMatrix = 1)
+    (hnv : nv = prec.mul m) :
+    HasDerivAt (fun t : ℝ => ngdObjective gm gv gk K.toMatrix (m.toMatrix + t • dm)
+        (S.toMatrix + m.toMatrix * m.toMatrixᵀ + t • dE))
+      (((Gen.NaturalGrad.ngdBackward gm gv gk K (S.mul K) (NaturalGrad.interpMeanM K m) nv m prec).2.1.toMatrixᵀ * dm).trace
+        + ((Gen.NaturalGrad.ngdBackward gm gv gk K (S.mul K) (NaturalGrad.interpMeanM K m) nv m prec).2.2.toMatrixᵀ * dE).trace)
+      0 := by
+  rw [gen_ngd_backward_eq_model]
+  have hE : S.toMatrix + m.toMatrix * m.toMatrixᵀ - m.toMatrix * m.toMatrixᵀ = S.toMatrix := add_sub_cancel_right _ _
+  have h := NgdKL.hasDerivAt_expec gm.toMatrixᵀ (Matrix.diagonal fun j => gv.toMatrix j 0) gk K.toMatrix m.toMatrix dm
+    (S.toMatrix + m.toMatrix * m.toMatrixᵀ) dE prec.toMatrix (Matrix.diagonal_transpose _)
+    (by rw [hE]; exact hS) (by rw [hE]; exact hpos) (by rw [hE]; exact hP)
+  refine h.congr_deriv ?_
+  subst hnv
+  simp only [NaturalGrad.ngdExpecVecGradM, NaturalGrad.ngdExpecMatGradM, NaturalGrad.rowDiag, DMat.toMatrix_add,
+    DMat.toMatrix_mul, DMat.toMatrix_smul, DMat.toMatrix_transpose, DMat.toMatrix_diagonal, DMat.toMatrix_sub,
+    DMat.toMatrix_one, Matrix.transpose_apply, Matrix.transpose_transpose]
+
+/-- **`_NgdInterpTerms.backward`, output 1 (full strength).**  For symmetric `S` and every direction `δK`: the
+derivative of the objective along `K + t·δK` is `⟨interp_term_grad, δK⟩` for the GENERATED backward (the KL term
+does not depend on `interp_term`). -/
+theorem ngd_backward_interp_hasDerivAt (S prec : DMat n n ℝ) (K : DMat n d ℝ) (m nv : DMat n 1 ℝ) (gm gv : DMat d 1 ℝ)
+    (gk : ℝ) (dK : Matrix (Fin n) (Fin d) ℝ) (hS : S.toMatrixᵀ = S.toMatrix) :
+    HasDerivAt (fun t : ℝ => ngdObjective gm gv gk (K.toMatrix + t • dK) m.toMatrix
+        (S.toMatrix + m.toMatrix * m.toMatrixᵀ))
+      (((Gen.NaturalGrad.ngdBackward gm gv gk K (S.mul K) (NaturalGrad.interpMeanM K m) nv m prec).1.toMatrixᵀ * dK).trace)
+      0 := by
+  rw [gen_ngd_backward_eq_model]
+  have hE : S.toMatrix + m.toMatrix * m.toMatrixᵀ - m.toMatrix * m.toMatrixᵀ = S.toMatrix := add_sub_cancel_right _ _
+  have h := NgdKL.hasDerivAt_interp gm.toMatrixᵀ (Matrix.diagonal fun j => gv.toMatrix j 0) gk K.toMatrix dK m.toMatrix
+    (S.toMatrix + m.toMatrix * m.toMatrixᵀ) (Matrix.diagonal_transpose _) (by rw [hE]; exact hS)
+  refine h.congr_deriv ?_
+  rw [hE]
+  simp only [NaturalGrad.ngdInterpTermGradM, NaturalGrad.rowDiag, DMat.toMatrix_add, DMat.toMatrix_mul,
+    DMat.toMatrix_smul, DMat.toMatrix_transpose, DMat.toMatrix_diagonal, Matrix.transpose_apply]
+
+/-- the KL term alone (what the wave-2 `ngd_interp_terms_partial` left to the correspondence): for zero data
+gradients the generated backward returns `(0, gk·natural_vec, gk·½(1 − prec))`, and that is the gradient of
+`gk·KL` w.r.t. the expectation parameters. -/
+theorem ngd_backward_kl_hasDerivAt (S prec : DMat n n ℝ) (K : DMat n d ℝ) (m nv : DMat n 1 ℝ) (gk : ℝ)
+    (dm : Matrix (Fin n) (Fin 1) ℝ) (dE : Matrix (Fin n) (Fin n) ℝ)
+    (hS : S.toMatrixᵀ = S.toMatrix) (hpos : 0 < S.toMatrix.det) (hP : prec.toMatrix * S.toMatrix = 1)
+    (hnv : nv = prec.mul m) :
+    HasDerivAt (fun t : ℝ => gk * NgdKL.kl (m.toMatrix + t • dm) (S.toMatrix + m.toMatrix * m.toMatrixᵀ + t • dE))
+      (((Gen.NaturalGrad.ngdBackward DMat.zero DMat.zero gk K (S.mul K) (NaturalGrad.interpMeanM K m) nv m prec).2.1.toMatrixᵀ * dm).trace
+        + ((Gen.NaturalGrad.ngdBackward DMat.zero DMat.zero gk K (S.mul K) (NaturalGrad.interpMeanM K m) nv m prec).2.2.toMatrixᵀ * dE).trace)
+      0 := by
+  have h := ngd_backward_expec_hasDerivAt S prec K m nv DMat.zero DMat.zero gk dm dE hS hpos hP hnv
+  refine h.congr_of_eventuallyEq (Filter.Eventually.of_forall fun t => ?_)
+  simp [ngdObjective, NgdKL.dataObj]
+
+end ngd
+
+/-! ### wave 3: natural / tril-natural backward, statements about the GENERATED code -/
+
+section tril
+variable {n : ℕ}
+
+/-- `_cholesky_backward` returns a symmetric matrix (it symmetrises explicitly) -/
+theorem cholesky_backward_symm (dout L Linv : DMat n n ℝ) :
+    (NaturalGrad.choleskyBackward dout L Linv).toMatrixᵀ = (NaturalGrad.choleskyBackward dout L Linv).toMatrix := by
+  simp only [NaturalGrad.choleskyBackward, DMat.toMatrix_smul, DMat.toMatrix_add, DMat.toMatrix_transpose,
+    Matrix.transpose_smul, Matrix.transpose_add, Matrix.transpose_transpose]
+  rw [add_comm]
+
+/-- **`_NaturalToMuVarSqrt._backward` (generated) returns the gradient w.r.t. the expectation parameters** — the chain
+of `cholesky_backward_adjoint` and `natural_adjoint_identity`.  `(η₁, η₂) ↦ (μ, L) = (η₁, chol(η₂ − η₁η₁ᵀ))`; a direction
+`(δ₁, δ₂)` is pushed forward to `(δ₁, δL)` with `δL` lower triangular and `δL·Lᵀ + L·δLᵀ = δ₂ − δ₁μᵀ − μδ₁ᵀ` (the
+differential of `Σ = LLᵀ`).  Then `⟨dout_dmu, δ₁⟩ + ⟨dout_dL, δL⟩ = ⟨dout_deta1, δ₁⟩ + ⟨dout_deta2, δ₂⟩`. -/
+theorem natural_backward_expectation_gradient (gMu mu : DMat n 1 ℝ) (gL L C : DMat n n ℝ)
+    (d1 : Matrix (Fin n) (Fin 1) ℝ) (d2 dL : Matrix (Fin n) (Fin n) ℝ)
+    (h1 : C.toMatrix * L.toMatrix = 1) (h2 : L.toMatrix * C.toMatrix = 1)
+    (hC : ∀ i j, i < j → C.toMatrix i j = 0) (hdL : ∀ i j, i < j → dL i j = 0)
+    (hpush : dL * L.toMatrixᵀ + L.toMatrix * dLᵀ = d2 - d1 * mu.toMatrixᵀ - mu.toMatrix * d1ᵀ) :
+    (gMu.toMatrixᵀ * d1).trace + (gL.toMatrixᵀ * dL).trace
+      = ((Gen.NaturalGrad.naturalBackward gMu gL mu L C).1.toMatrixᵀ * d1).trace
+        + ((Gen.NaturalGrad.naturalBackward gMu gL mu L C).2.toMatrixᵀ * d2).trace := by
+  rw [gen_natural_backward_eq_model]
+  rw [← natural_adjoint_identity gMu mu (NaturalGrad.choleskyBackward gL L C) d1 d2 (cholesky_backward_symm gL L C),
+    ← hpush, cholesky_backward_adjoint gL L C dL h1 h2 hC hdL]
+
+/-- first output of the generated `_TrilNaturalToMuVarSqrt.backward` = first output of the generated natural backward
+(so `natural_backward_expectation_gradient` applies to it verbatim) -/
+theorem tril_backward_first_output (gMu mu : DMat n 1 ℝ) (gL L C : DMat n n ℝ) :
+    (Gen.NaturalGrad.trilBackward gMu gL mu L C).1 = (Gen.NaturalGrad.naturalBackward gMu gL mu L C).1 := by
+  rw [gen_tril_backward_eq_model, gen_natural_backward_eq_model]
+
+/-- **second output of the generated `_TrilNaturalToMuVarSqrt.backward`** (wave 2: correspondence only).  With
+`G = dout_dnat2` (second output of the natural backward: the direction in which the natural matrix `θ` moves),
+`C = natural_tril_mat` lower triangular, `L·C = 1`: the returned `Ċ` is lower triangular and satisfies the
+differential of the constraint `CᵀC = −2θ`:  `ĊᵀC + CᵀĊ = −2G`. -/
+theorem tril_backward_tangent (gMu mu : DMat n 1 ℝ) (gL L C : DMat n n ℝ)
+    (hC : ∀ i j, i < j → C.toMatrix i j = 0) (hLC : L.toMatrix * C.toMatrix = 1) :
+    (∀ i j, i < j → (Gen.NaturalGrad.trilBackward gMu gL mu L C).2.toMatrix i j = 0) ∧
+    (Gen.NaturalGrad.trilBackward gMu gL mu L C).2.toMatrixᵀ * C.toMatrix
+        + C.toMatrixᵀ * (Gen.NaturalGrad.trilBackward gMu gL mu L C).2.toMatrix
+      = (-2 : ℝ) • (Gen.NaturalGrad.naturalBackward gMu gL mu L C).2.toMatrix := by
+  rw [gen_tril_backward_eq_model, gen_natural_backward_eq_model]
+  exact ⟨TrilTangent.tangent_lower _ L C hC,
+    TrilTangent.tangent_solves _ L C (cholesky_backward_symm gL L C) hLC⟩
+
+/-- …and it is the ONLY lower-triangular solution, hence **the derivative at 0 of every differentiable curve
+`t ↦ C(t)` of lower-triangular factors of `−2(θ + t·G)` through `C`** — the forward-mode sensitivity the docstring of
+`backward` derives.  (`L` lower triangular, two-sided inverse of `C`.) -/
+theorem tril_backward_is_derivative (gMu mu : DMat n 1 ℝ) (gL L C : DMat n n ℝ)
+    (θ : Matrix (Fin n) (Fin n) ℝ) (Cc : ℝ → Matrix (Fin n) (Fin n) ℝ) (D : Matrix (Fin n) (Fin n) ℝ)
+    (h0 : Cc 0 = C.toMatrix) (hder : ∀ i j, HasDerivAt (fun t => Cc t i j) (D i j) 0)
+    (hlow : ∀ᶠ t in nhds (0 : ℝ), ∀ i j, i < j → Cc t i j = 0)
+    (hcon : ∀ᶠ t in nhds (0 : ℝ),
+      (Cc t)ᵀ * Cc t = (-2 : ℝ) • (θ + t • (Gen.NaturalGrad.naturalBackward gMu gL mu L C).2.toMatrix))
+    (hL : ∀ i j, i < j → L.toMatrix i j = 0)
+    (hLC : L.toMatrix * C.toMatrix = 1) (hCL : C.toMatrix * L.toMatrix = 1) :
+    D = (Gen.NaturalGrad.trilBackward gMu gL mu L C).2.toMatrix := by
+  rw [gen_tril_backward_eq_model]
+  rw [gen_natural_backward_eq_model] at hcon
+  exact TrilTangent.tangent_is_derivative _ L C θ Cc D h0 hder hlow hcon hL hLC hCL
+
+end tril
+
+
+section inputgrad
+open Kernels
+/-! ### wave 3: gradients of a kernel value w.r.t. the (test) inputs -/
+
+/-- RBF, documented formula with ARD lengthscales, as a function of coordinate `k` of the first input:
+`∂k/∂a_k = −(a_k − b_k)/ℓ_k² · k` — for every pair of rows, coincident or not. -/
+theorem rbf_spec_input_gradient (ls a b : List ℝ) (k : ℕ) (hka : k < a.length) (hkb : k < b.length)
+    (hkl : k < ls.length) (x : ℝ) :
+    HasDerivAt (fun x => rbfSpec ls (a.set k x) b)
+      (-((x - b.getD k 0) / (ls.getD k 1) ^ 2) * rbfSpec ls (a.set k x) b) x := by
+  have hA := fun x => sqDistArd_set_left ls a b k x hka hkb hkl
+  have hfun : (fun x => rbfSpec ls (a.set k x) b) = fun x : ℝ =>
+      Real.exp (-((((1 / 2 : ℚ)) : ℝ) * (sqDistArd ls (a.set k (b.getD k 0)) b + (x - b.getD k 0) ^ 2 / (ls.getD k 1) ^ 2))) := by
+    funext x
+    simp only [rbfSpec, hA x, exp_real, lit_real]
+  rw [hfun, rbfSpec, hA x]
+  simp only [exp_real, lit_real]
+  have hu : HasDerivAt (fun x : ℝ => sqDistArd ls (a.set k (b.getD k 0)) b + (x - b.getD k 0) ^ 2 / (ls.getD k 1) ^ 2)
+      (2 * (x - b.getD k 0) / (ls.getD k 1) ^ 2) x := by
+    have := ((((hasDerivAt_id x).sub_const (b.getD k 0)).pow 2).div_const ((ls.getD k 1) ^ 2)).const_add
+      (sqDistArd ls (a.set k (b.getD k 0)) b)
+    exact this.congr_deriv (by simp)
+  refine ((hu.const_mul (((1 / 2 : ℚ)) : ℝ)).neg.exp).congr_deriv ?_
+  simp only [Pi.neg_apply]
+  push_cast
+  ring
+
+/-- …hence for the GENERATED fast-path term of `RBFCovariance.forward` (single lengthscale) and for the generic
+(autograd) path `rbfImpl` the derivative autograd must find w.r.t. a coordinate of `x1` is `−(x − b_k)/ℓ²·k`. -/
+theorem rbf_generated_input_gradient (a b : List ℝ) (ℓ : ℝ) (k : ℕ) (hka : k < a.length) (hkb : k < b.length) (x : ℝ) :
+    HasDerivAt (fun x => rbfFwdGradOut sqDist (a.set k x) b ℓ)
+      (-((x - b.getD k 0) / ℓ ^ 2) * rbfFwdGradOut sqDist (a.set k x) b ℓ) x := by
+  have e : ∀ x, rbfFwdGradOut sqDist (a.set k x) b ℓ = rbfSpec (List.replicate a.length ℓ) (a.set k x) b := by
+    intro x
+    have := (FastPath.rbf_fast_eq_spec (a.set k x) b ℓ).1
+    rwa [List.length_set] at this
+  have hl : (List.replicate a.length ℓ).getD k 1 = ℓ := by
+    simp [List.getD_eq_getElem?_getD, hka]
+  have h := rbf_spec_input_gradient (List.replicate a.length ℓ) a b k hka hkb (by simpa using hka) x
+  rw [hl] at h
+  simpa only [e] using h
+
+/-- radial profiles of Matérn 3/2 and 5/2: `m'(r) = r·G(r)` (so the chain rule through `√` survives `r = 0`) -/
+theorem matern32_profile (r : ℝ) :
+    HasDerivAt (fun r : ℝ => (1 + Real.sqrt 3 * r) * Real.exp (-(Real.sqrt 3 * r)))
+      (r * (-(3 * Real.exp (-(Real.sqrt 3 * r))))) r := by
+  have h3 : Real.sqrt 3 ^ 2 = 3 := Real.sq_sqrt (by norm_num)
+  have hid := hasDerivAt_id r
+  have hpoly := (hid.const_mul (Real.sqrt 3)).const_add 1
+  have hexp := (hid.const_mul (Real.sqrt 3)).neg.exp
+  refine (hpoly.mul hexp).congr_deriv ?_
+  simp only [Pi.neg_apply, id]
+  ring_nf
+  rw [h3]
+  ring
+
+theorem matern52_profile (r : ℝ) :
+    HasDerivAt (fun r : ℝ => (1 + Real.sqrt 5 * r + 5 / 3 * r ^ 2) * Real.exp (-(Real.sqrt 5 * r)))
+      (r * (-(5 / 3 * (1 + Real.sqrt 5 * r) * Real.exp (-(Real.sqrt 5 * r))))) r := by
+  have h5 : Real.sqrt 5 ^ 2 = 5 := Real.sq_sqrt (by norm_num)
+  have hid := hasDerivAt_id r
+  have hpoly := ((hid.const_mul (Real.sqrt 5)).const_add 1).add ((hid.pow 2).const_mul (5 / 3))
+  have hexp := (hid.const_mul (Real.sqrt 5)).neg.exp
+  refine (hpoly.mul hexp).congr_deriv ?_
+  simp only [Pi.neg_apply, Pi.pow_apply, Pi.add_apply, id]
+  ring_nf
+  rw [h5]
+  ring
+
+/-- Matérn 3/2 and 5/2 (ARD), coordinate `k` of the first input, EVERY pair of rows (the chain rule through the
+distance is replaced by `hasDerivAt_radial` at coincident points):
+`∂k/∂a_k = −3·e^{−√3 r}·(a_k − b_k)/ℓ_k²` resp. `−(5/3)(1 + √5 r)e^{−√5 r}·(a_k − b_k)/ℓ_k²`, `r` the scaled distance. -/
+theorem matern_spec_input_gradient (ls a b : List ℝ) (k : ℕ) (hka : k < a.length) (hkb : k < b.length)
+    (hkl : k < ls.length) (hk0 : ls.getD k 1 ≠ 0) (x : ℝ) :
+    HasDerivAt (fun x => maternSpec 3 ls (a.set k x) b)
+      (-(3 * Real.exp (-(Real.sqrt 3 * Real.sqrt (sqDistArd ls (a.set k x) b))))
+        * ((x - b.getD k 0) / (ls.getD k 1) ^ 2)) x ∧
+    HasDerivAt (fun x => maternSpec 5 ls (a.set k x) b)
+      (-(5 / 3 * (1 + Real.sqrt 5 * Real.sqrt (sqDistArd ls (a.set k x) b))
+          * Real.exp (-(Real.sqrt 5 * Real.sqrt (sqDistArd ls (a.set k x) b))))
+        * ((x - b.getD k 0) / (ls.getD k 1) ^ 2)) x := by
+  have hA := fun x => sqDistArd_set_left ls a b k x hka hkb hkl
+  have hC : 0 ≤ sqDistArd ls (a.set k (b.getD k 0)) b := sqDistArd_nonneg _ _ _
+  constructor
+  · have hrad := hasDerivAt_radial _ _ matern32_profile (sqDistArd ls (a.set k (b.getD k 0)) b) (b.getD k 0)
+      (ls.getD k 1) x hC hk0
+    have hfun : (fun x => maternSpec 3 ls (a.set k x) b) = fun x : ℝ =>
+        (fun r : ℝ => (1 + Real.sqrt 3 * r) * Real.exp (-(Real.sqrt 3 * r)))
+          (Real.sqrt (sqDistArd ls (a.set k (b.getD k 0)) b + (x - b.getD k 0) ^ 2 / (ls.getD k 1) ^ 2)) := by
+      funext x
+      simp only [maternSpec, maternOfDist, hA x, sqrt_real, exp_real, lit_real]
+      push_cast; rfl
+    rw [hfun, hA x]
+    exact hrad
+  · have hrad := hasDerivAt_radial _ _ matern52_profile (sqDistArd ls (a.set k (b.getD k 0)) b) (b.getD k 0)
+      (ls.getD k 1) x hC hk0
+    have hfun : (fun x => maternSpec 5 ls (a.set k x) b) = fun x : ℝ =>
+        (fun r : ℝ => (1 + Real.sqrt 5 * r + 5 / 3 * r ^ 2) * Real.exp (-(Real.sqrt 5 * r)))
+          (Real.sqrt (sqDistArd ls (a.set k (b.getD k 0)) b + (x - b.getD k 0) ^ 2 / (ls.getD k 1) ^ 2)) := by
+      funext x
+      simp only [maternSpec, maternOfDist, hA x, sqrt_real, exp_real, lit_real, sq_real]
+      push_cast; rfl
+    rw [hfun, hA x]
+    exact hrad
+
+/-- …and for the GENERATED fast-path Matérn terms (single lengthscale), whatever the centring row `m` is — it may be
+recomputed from the moving input (`x1.mean(-2)`), the value does not depend on it. -/
+theorem matern_generated_input_gradient (a b : List ℝ) (mf : ℝ → List ℝ) (ℓ : ℝ) (k : ℕ) (hka : k < a.length)
+    (hkb : k < b.length) (hm : ∀ x, (mf x).length = a.length) (hb : b.length = a.length) (hℓ : ℓ ≠ 0) (x : ℝ) :
+    HasDerivAt (fun x => matern32FwdGradOut Scalar.dist (a.set k x) b (mf x) ℓ)
+      (-(3 * Real.exp (-(Real.sqrt 3 * Real.sqrt (sqDistArd (List.replicate a.length ℓ) (a.set k x) b))))
+        * ((x - b.getD k 0) / ℓ ^ 2)) x ∧
+    HasDerivAt (fun x => matern52FwdGradOut Scalar.dist (a.set k x) b (mf x) ℓ)
+      (-(5 / 3 * (1 + Real.sqrt 5 * Real.sqrt (sqDistArd (List.replicate a.length ℓ) (a.set k x) b))
+          * Real.exp (-(Real.sqrt 5 * Real.sqrt (sqDistArd (List.replicate a.length ℓ) (a.set k x) b))))
+        * ((x - b.getD k 0) / ℓ ^ 2)) x := by
+  have hl : (List.replicate a.length ℓ).getD k 1 = ℓ := by
+    simp [List.getD_eq_getElem?_getD, hka]
+  have e3 : ∀ x, matern32FwdGradOut Scalar.dist (a.set k x) b (mf x) ℓ
+      = maternSpec 3 (List.replicate a.length ℓ) (a.set k x) b := by
+    intro x
+    have := (FastPath.matern32_fast_eq_spec (a.set k x) b (mf x) ℓ (by rw [List.length_set, hm x]) (by rw [hb, hm x])).1
+    rwa [List.length_set] at this
+  have e5 : ∀ x, matern52FwdGradOut Scalar.dist (a.set k x) b (mf x) ℓ
+      = maternSpec 5 (List.replicate a.length ℓ) (a.set k x) b := by
+    intro x
+    have := (FastPath.matern52_fast_eq_spec (a.set k x) b (mf x) ℓ (by rw [List.length_set, hm x]) (by rw [hb, hm x])).1
+    rwa [List.length_set] at this
+  have h := matern_spec_input_gradient (List.replicate a.length ℓ) a b k hka hkb (by simpa using hka) (by rwa [hl]) x
+  rw [hl] at h
+  exact ⟨by simpa only [e3] using h.1, by simpa only [e5] using h.2⟩
+
+end inputgrad
+
 /-! ### non-vacuity -/
 
 example : ∃ ℓ : ℝ, ℓ ≠ 0 ∧ HasDerivAt (fun l : ℝ => (2 : ℝ) * rbfFwdGradOut sqDist [0, 1] [0, 1] l)
@@ -320,5 +727,53 @@ example : ∃ ℓ : ℝ, ℓ ≠ 0 ∧ HasDerivAt (fun l : ℝ => (2 : ℝ) * rb
 example : ∃ (L Li : DMat 1 1 ℝ), Li.toMatrix * L.toMatrix = 1 ∧ L.toMatrix * Li.toMatrix = 1 :=
   ⟨DMat.ofMatrix !![2], DMat.ofMatrix !![1 / 2], by ext i j; fin_cases i; fin_cases j; simp [Matrix.mul_apply],
     by ext i j; fin_cases i; fin_cases j; simp [Matrix.mul_apply]⟩
+
+/-- hypotheses of `ngd_backward_expec_hasDerivAt` / `ngd_backward_kl_hasDerivAt` (symmetric `S`, `det S > 0`,
+`prec·S = 1`, `natural_vec = prec·m`) -/
+example : ∃ (S prec : DMat 1 1 ℝ) (m nv : DMat 1 1 ℝ), S.toMatrixᵀ = S.toMatrix ∧ 0 < S.toMatrix.det ∧
+    prec.toMatrix * S.toMatrix = 1 ∧ nv = prec.mul m :=
+  ⟨DMat.ofMatrix !![2], DMat.ofMatrix !![1 / 2], DMat.ofMatrix !![3], (DMat.ofMatrix !![1 / 2]).mul (DMat.ofMatrix !![3]),
+    by ext i j; fin_cases i; fin_cases j; simp, by simp,
+    by ext i j; fin_cases i; fin_cases j; simp [Matrix.mul_apply], rfl⟩
+
+/-- hypotheses of `gen_ngd_forward_eq_model` (a solver that returns `S·rhs`) -/
+example (S : DMat 2 2 ℝ) : ∃ cg : DMat 2 2 ℝ → DMat 2 (1 + 3) ℝ → DMat 2 (1 + 3) ℝ, ∀ P R, cg P R = S.mul R :=
+  ⟨fun _ R => S.mul R, fun _ _ => rfl⟩
+
+/-- hypotheses of `natural_backward_expectation_gradient`: `L = 2`, `C = ½`, `μ = 0`, direction `δ₂ = 4`, `δL = 1` -/
+example : ∃ (mu : DMat 1 1 ℝ) (L C : DMat 1 1 ℝ) (d1 : Matrix (Fin 1) (Fin 1) ℝ) (d2 dL : Matrix (Fin 1) (Fin 1) ℝ),
+    C.toMatrix * L.toMatrix = 1 ∧ L.toMatrix * C.toMatrix = 1 ∧ (∀ i j, i < j → C.toMatrix i j = 0) ∧
+    (∀ i j, i < j → dL i j = 0) ∧
+    dL * L.toMatrixᵀ + L.toMatrix * dLᵀ = d2 - d1 * mu.toMatrixᵀ - mu.toMatrix * d1ᵀ :=
+  ⟨DMat.ofMatrix !![0], DMat.ofMatrix !![2], DMat.ofMatrix !![1 / 2], !![0], !![4], !![1],
+    by ext i j; fin_cases i; fin_cases j; simp [Matrix.mul_apply],
+    by ext i j; fin_cases i; fin_cases j; simp [Matrix.mul_apply],
+    by intro i j h; fin_cases i; fin_cases j; simp at h,
+    by intro i j h; fin_cases i; fin_cases j; simp at h,
+    by ext i j; fin_cases i; fin_cases j; simp [Matrix.vecMul, Matrix.vecHead, dotProduct]; norm_num⟩
+
+/-- hypotheses of `tril_backward_is_derivative` are satisfiable: `n = 1`, `C = L = 1`, `θ = −½`, zero
+upstream gradient (so the direction `G` is `0`) and the constant curve; the derivative is `0 = Φ(0)·C`. -/
+example : ∃ (C L : DMat 1 1 ℝ) (θ : Matrix (Fin 1) (Fin 1) ℝ) (Cc : ℝ → Matrix (Fin 1) (Fin 1) ℝ)
+    (D : Matrix (Fin 1) (Fin 1) ℝ),
+    Cc 0 = C.toMatrix ∧ (∀ i j, HasDerivAt (fun t => Cc t i j) (D i j) 0) ∧
+    (∀ᶠ t in nhds (0 : ℝ), ∀ i j, i < j → Cc t i j = 0) ∧
+    (∀ᶠ t in nhds (0 : ℝ), (Cc t)ᵀ * Cc t = (-2 : ℝ) • (θ + t • (0 : Matrix (Fin 1) (Fin 1) ℝ))) ∧
+    L.toMatrix * C.toMatrix = 1 ∧ C.toMatrix * L.toMatrix = 1 :=
+  ⟨DMat.ofMatrix 1, DMat.ofMatrix 1, !![-1 / 2], fun _ => 1, 0, by simp,
+    fun i j => by simpa using hasDerivAt_const (0 : ℝ) ((1 : Matrix (Fin 1) (Fin 1) ℝ) i j),
+    Filter.Eventually.of_forall fun t i j h => by fin_cases i; fin_cases j; simp at h,
+    Filter.Eventually.of_forall fun t => by ext i j; fin_cases i; fin_cases j; simp; norm_num,
+    by simp, by simp⟩
+
+/-- hypotheses of the input-gradient theorems: coincident rows, coordinate 1 -/
+example : HasDerivAt (fun x => rbfFwdGradOut sqDist (([0, 1] : List ℝ).set 1 x) [0, 1] 2)
+    (-((1 - ([0, 1] : List ℝ).getD 1 0) / 2 ^ 2) * rbfFwdGradOut sqDist (([0, 1] : List ℝ).set 1 1) [0, 1] 2) 1 :=
+  rbf_generated_input_gradient [0, 1] [0, 1] 2 1 (by simp) (by simp) 1
+
+/-- Matérn input gradients at coincident rows, the centring row moving with the input (`x1.mean(-2)` of a one-row `x1`) -/
+example : ∃ g : ℝ, HasDerivAt (fun x => matern52FwdGradOut Scalar.dist (([0, 1] : List ℝ).set 1 x) [0, 1] [0, x] 3) g 1 :=
+  ⟨_, (matern_generated_input_gradient [0, 1] [0, 1] (fun x => [0, x]) 3 1 (by simp) (by simp) (fun _ => by simp) (by simp)
+    (by norm_num) 1).2⟩
 
 end C19
